@@ -138,8 +138,8 @@ def one_config(facts, wname, w, k, rc, H, RH):
                 good.remove(ob)
             bad.append((ob, detail))
 
-    nm = ['b%d' % i for i in range(L)]
-    arr = Agg('array', 0, [sym_base_byte(n) for n in nm])
+    nm = ['b%d' % i for i in range(L + 1)]
+    arr = Agg('array', 0, [sym_base_byte(n) for n in nm[:L]])
     cell = Cell(arr, 'seq')
     seq = Agg('cow', 0, [RefV(cell, (), (0, L))])
     qf = Agg('adt:QualFilter', 0, [])
@@ -236,6 +236,26 @@ def one_config(facts, wname, w, k, rc, H, RH):
         check('O5', ok == BV(1, 0), 'roll_fwd at the end of the sequence returned %r' % (ok,), SK + 'roll_fwd')
     except Panic as p:
         check('O10', False, 'roll_fwd panics at end of sequence: %s' % p, SK + 'roll_fwd')
+    # ---- O11 restart: a window built at a non-zero offset (after skipping an N) must have the same layout and the same
+    # hashes as if the record started there, and keep them when rolled  (build(): &seq[*idx..*idx + k])
+    try:
+        arrN = [sym_base_byte(n) for n in nm]
+        arrN[1] = BV(8, ord('N'))
+        cellN = Cell(Agg('array', 0, arrN), 'seqN')
+        seqN = Agg('cow', 0, [RefV(cellN, (), (0, L + 1))])
+        rN = I.call_fn(SK + 'new', [seqN, BV(64, L + 1), NONE, BV(64, k), BV(1, rc), BV(8, 0), qf, BV(1, 1)])
+        if rN.variant != 1:
+            check('O11', False, 'SplitKmer::new returned None although k valid bases follow the N', SK + 'build')
+        else:
+            skc.v = rN.fields[0]
+            n_before = len(bad)
+            check_window(2, 'new')
+            ok = I.call_fn(SK + 'roll_fwd', [RefV(skc)])
+            check('O11', ok == BV(1, 1), 'roll_fwd after a restart returned %r on a valid base' % (ok,), SK + 'roll_fwd')
+            check_window(3, 'roll1')
+            check('O11', len(bad) == n_before, 'window built after skipping an N differs from the window of the same bases at the record start: %s' % (bad[n_before][1][:160] if len(bad) > n_before else ''), SK + 'build')
+    except Panic as p:
+        check('O10', False, 'restart path panics: %s' % p, SK + 'build')
     # ---- O9 decode: decode_kmer passes the 2-bit groups in string order
     try:
         I2 = Interp(facts, {'IntT': wname})
